@@ -23,6 +23,15 @@ VOCAB = [
     (["link=http://a:b/c"], ["link"], _rec(link="http://a:b/c")),
     (["link=https://x.y/?q=1#f"], ["link"], _rec(link="https://x.y/?q=1#f")),
     (["strike", "s"], ["strike", "s"], _rec({"strike": True})),
+    # tags whose name is NOT a style (unknown words, style definitions cut short): still tags - removed from the
+    # text, closed by name - but they style nothing
+    (["not"], ["not"], _rec()),
+    (["bold not"], ["bold not"], _rec()),
+    (["on"], ["on"], _rec()),
+    (["red on"], ["red on"], _rec()),
+    (["not nosuchattr"], ["not nosuchattr"], _rec()),
+    (["nosuchstyle"], ["nosuchstyle"], _rec()),
+    (["two words"], ["two words"], _rec()),
 ]
 
 LEAF_ALPHABET = "[]\\/=#ab1 \n:xyzR漢́"
